@@ -162,6 +162,15 @@ def run(rep, pdb, tier):
             ok = (ne and cmp_of(t1, "real") and cmp_of(t2, "imag")) or (eq and cmp_of(t1, "imag") and cmp_of(t2, "real"))
             det = "cond=%s" % (c,)
         rep.add(key, rule, ok, fn["body"], det, where=loc(fn["body"]))
+    # ---- the comparison traits define only their required method: no lt/le/gt/ge/ne override can disagree with it
+    for tr, only in (("std::cmp::PartialOrd", "partial_cmp"), ("std::cmp::PartialEq", "eq")):
+        impls = [i for i in pdb.impls if i.get("trait") == tr and str(i.get("self_ty", "")).startswith("complex::Complex<")]
+        key, rule = "eq-ord/no-override/%s" % only, "the %s impl of Complex defines only `%s` (the derived operators <, <=, >, >=, != follow from it)" % (tr.split("::")[-1], only)
+        if len(impls) != 1:
+            rep.missing(key, rule, "impl not found (%d)" % len(impls))
+        else:
+            items = [str(x).split("::")[-1] for x in impls[0].get("items", [])]
+            rep.add(key, rule, items == [only], None, "items: %s" % items, where="%s:%d" % (impls[0]["file"], impls[0]["span"][0]))
     # ---- abs / arg
     fn = pdb.fn("complex::Complex<f64>::abs")
     key, rule = "abs-arg/abs", "abs = sqrt(abs_sqr(self))"
@@ -184,7 +193,7 @@ def run(rep, pdb, tier):
     rep.floor("field/", 14)
     rep.floor("assign-bit-identical/", 8)
     rep.floor("stale-read/", 2)
-    rep.floor("eq-ord/", 2)
+    rep.floor("eq-ord/", 4)
     rep.floor("abs-arg/", 2)
     rep.assumptions += ["trait operations on the element type T are interpreted as ring/field operations (the property's exact-element-type case)",
                         "bit identity is claimed modulo commutativity of IEEE + and * only (both are commutative in IEEE 754); no re-association is used",
